@@ -20,6 +20,7 @@ package flood
 import (
 	"fmt"
 	"net"
+	"os"
 	"reflect"
 	"runtime/debug"
 	"sort"
@@ -231,10 +232,18 @@ func (s *simNet) Close() {
 	}
 }
 
+// simTraceCap bounds the witness trace (larger when a single case is replayed with VERIF_CASES).
+var simTraceCap = func() int {
+	if os.Getenv("VERIF_CASES") != "" {
+		return 6000
+	}
+	return 400
+}()
+
 func (s *simNet) tr(format string, a ...any) {
-	if len(s.Trace) < 400 {
+	if len(s.Trace) < simTraceCap {
 		s.Trace = append(s.Trace, fmt.Sprintf(format, a...))
-	} else if len(s.Trace) == 400 {
+	} else if len(s.Trace) == simTraceCap {
 		s.Trace = append(s.Trace, "...trace truncated")
 	}
 }
